@@ -13,6 +13,13 @@ R25f  directory containment is decided on whole path components: no
       between two paths has a separator-terminated prefix
 R25g  nothing in discovery is memoised on a caller-spelled path (the key would
       depend on the spelling and on the working directory at the time of the call)
+
+Spellings read as the same facts (QUIET sweep): a record unpacked by the ``for`` target, by a
+statement, or indexed (``rec[0]`` / ``rec[2]``); tests held in a boolean local; keyword arguments of
+``_check_ignore_specs``; ``abspath`` in place or in a local; ``x is None`` for ``not x`` on the
+checker's result; the loader fetched from the table into a local before the call; pruning as one
+``or`` or as if/elif arms each testing one list; comprehension filters are comparisons too (R25a);
+a separator-terminated prefix held in a local (R25f).
 """
 
 from __future__ import annotations
@@ -20,19 +27,47 @@ from __future__ import annotations
 import ast
 
 from ..cfg import cfg_of, origins
-from ..index import FuncNode, call_name, last_attr, norm, short, walk_local, calls_in
-from ..quals import KindInterp, NEUTRAL, TOP, BOT, Seq, Tup, combine, is_known
+from ..idioms import component_origins, conditions_at
+from ..index import FuncNode, arg_of, call_name, last_attr, norm, short, walk_local, calls_in
+from ..quals import KindInterp, NEUTRAL, TOP, BOT, Seq, Tup, combine, is_known, join
 
 DISC = "src/sqlfluff/core/linter/discovery.py"
 HFILE = "src/sqlfluff/core/helpers/file.py"
 ABS, GIVEN, REL = "ABS", "GIVEN", "REL"
 
 
+class Fns:
+    """Abstract value of ``TABLE[k]`` for a module-level dispatch table: one of these functions."""
+
+    def __init__(self, names):
+        self.names = tuple(names)
+
+    def __eq__(self, o):
+        return isinstance(o, Fns) and self.names == o.names
+
+    def __hash__(self):
+        return hash(("Fns", self.names))
+
+    def __repr__(self):
+        return "Fns" + repr(self.names)
+
+
 class PathKinds(KindInterp):
     def _eval(self, e, env, func):
         if isinstance(e, ast.Constant) and e.value is None:
             return BOT
+        if isinstance(e, (ast.ListComp, ast.GeneratorExp, ast.SetComp, ast.DictComp)):
+            # the filters of a comprehension are comparisons like any other test
+            for g in e.generators:
+                for cond in g.ifs:
+                    self._eval(cond, env, func)
         return super()._eval(e, env, func)
+
+    def index_of(self, e, base, env, func):
+        # ``loader = TABLE[key]`` : the loader fetched into a local before it is called
+        if isinstance(e.value, ast.Name) and e.value.id in self.tables and e.value.id not in env.get("__assigned__", ()):
+            return Fns(self.tables[e.value.id])
+        return super().index_of(e, base, env, func)
 
     def attr_kind(self, node, base):
         if norm(node) in ("os.sep", "os.path.sep", "os.altsep", "os.curdir"):
@@ -52,6 +87,13 @@ class PathKinds(KindInterp):
 
     def call_kind(self, call, name, args, ev):
         last = last_attr(call)
+        if isinstance(call.func, ast.Name):
+            fv = ev(call.func)
+            if isinstance(fv, Fns):
+                v = BOT
+                for fn in fv.names:
+                    v = join(v, self._call_local(fn, args)) if fn in self.functions else TOP
+                return v
         if name in ("os.path.abspath", "os.path.realpath") or last in ("absolute", "resolve"):
             return ABS
         if name == "os.getcwd" or name.endswith("Path.cwd"):
@@ -163,10 +205,14 @@ def run(chk) -> None:
         if isinstance(node, ast.Call) and last_attr(node) == "startswith" and id(node) not in seen_sw and is_known(l) and is_known(r):
             seen_sw.add(id(node))
             arg = node.args[0] if node.args else None
-            sep_ok = (
-                isinstance(arg, ast.BinOp) and isinstance(arg.op, ast.Add)
-                and (norm(arg.right) in ("os.sep", "os.path.sep") or (isinstance(arg.right, ast.Constant) and arg.right.value in ("/", "\\")))
-            ) or (isinstance(arg, ast.Call) and call_name(arg) == "os.path.join" and arg.args and isinstance(arg.args[-1], ast.Constant) and arg.args[-1].value == "")
+            # the prefix may be held in a local: every value it can have must be separator-terminated
+            fn_ = _enclosing_def(node)
+            if isinstance(arg, ast.Name) and fn_ is not None:
+                cfg_ = cfg_of(fn_)
+                os_ = origins(cfg_, arg, cfg_.stmt_of(node))
+                sep_ok = bool(os_) and all(o.kind == "expr" and not o.path and _sep_terminated(o.expr) for o in os_)
+            else:
+                sep_ok = _sep_terminated(arg)
             chk.require(sep_ok, "R25f", node, "prefix test between two paths without a trailing separator on the prefix: sibling directories sharing a name prefix are confused",
                         detail="startswith prefix separator-terminated")
     chk.count("R25f.path_startswith_sites", len(seen_sw))
@@ -225,14 +271,15 @@ def run(chk) -> None:
             arg = call.args[0] if call.args else None
             cfg = cfg_of(f)
             cands = [arg] if not isinstance(arg, ast.Name) else [o.expr for o in origins(cfg, arg)]
+            call_at = cfg.stmt_of(call)
             for c in cands:
                 if isinstance(c, ast.Call) and call_name(c) == "os.path.relpath" and len(c.args) == 2:
                     base = c.args[1]
-                    # the base directory and the spec must come from the same unpacked record
+                    # the base directory and the spec must come from the same record (unpacked or indexed)
                     spec_recv = call.func.value if isinstance(call.func, ast.Attribute) else None
-                    if isinstance(base, ast.Name) and isinstance(spec_recv, ast.Name):
-                        bo = origins(cfg, base, cfg.stmt_of(call))
-                        so = origins(cfg, spec_recv, cfg.stmt_of(call))
+                    if isinstance(base, (ast.Name, ast.Subscript)) and isinstance(spec_recv, (ast.Name, ast.Subscript)):
+                        bo = component_origins(cfg, base, cfg.stmt_of(call))
+                        so = component_origins(cfg, spec_recv, cfg.stmt_of(call))
                         if (
                             len(bo) == 1 and len(so) == 1 and bo[0].kind == "for" and so[0].kind == "for"
                             and bo[0].stmt is so[0].stmt and bo[0].path == (0,) and so[0].path and so[0].path != (0,)
@@ -253,6 +300,7 @@ def run(chk) -> None:
 
     # ---- R25e -----------------------------------------------------------
     f = repo.fn(DISC, "_iter_files_in_path")
+    checker = repo.fn(DISC, "_check_ignore_specs")
     cfg = cfg_of(f)
     walk_for = None
     for n in walk_local(f):
@@ -278,13 +326,13 @@ def run(chk) -> None:
             continue
         os_ = origins(cfg, c.args[0]) if isinstance(c.args[0], ast.Name) else []
         for o in os_:
-            if isinstance(o.expr, ast.Call) and isinstance(o.expr.func, ast.Subscript) and norm(o.expr.func.value) in tables:
+            if isinstance(o.expr, ast.Call) and o.stmt is not None and _table_loader_call(cfg, o.expr, o.stmt, tables):
                 inner_appends.append((c, o.expr))
     chk.count("R25e.loader_appends", len(inner_appends))
     chk.floor("R25e.loader_appends", 1)
     for c, loader_call in inner_appends:
         conds = cfg.conditions(cfg.stmt_of(c))
-        sw = [e for e, pol in conds if pol and isinstance(e, ast.Name) and any(o.kind == "param" for o in origins(cfg, e, cfg.stmt_of(c)))]
+        sw = [e for e, pol in conds if pol and isinstance(e, ast.Name) and (lambda os_: bool(os_) and all(o.kind == "param" for o in os_))(origins(cfg, e, cfg.stmt_of(c)))]
         chk.require(bool(sw), "R25e", c, "inner ignore spec appended outside the ignore_files switch", detail="append under switch")
         # loader is called with the walked directory and the file name found there
         a0 = loader_call.args[0] if loader_call.args else None
@@ -295,7 +343,7 @@ def run(chk) -> None:
         )
         # the list appended to is the one consulted for files and sub-directories
         lst = c.func.value
-        uses = [x for x in calls_in(f) if call_name(x) == "_check_ignore_specs" and len(x.args) > 1 and norm(x.args[1]) == norm(lst)]
+        uses = [x for x in calls_in(f) if call_name(x) == "_check_ignore_specs" and (lambda a: a is not None and norm(a) == norm(lst))(_ignore_call_args(x, checker)[1])]
         in_file_loop = [x for x in uses if any(isinstance(y, ast.Yield) for y in ast.walk(_enclosing_for(x, walk_for) or ast.Pass()))]
         chk.require(
             len(uses) >= 2 and len(in_file_loop) >= 1 and len(in_file_loop) < len(uses), "R25e", c,
@@ -305,17 +353,83 @@ def run(chk) -> None:
     # pruning: sub-directories are removed from the list os.walk recurses on
     removes = [c for c in calls_in(f) if last_attr(c) == "remove" and isinstance(c.func, ast.Attribute) and isinstance(c.func.value, ast.Name)]
     pruned = False
+    prune_sites = []
     for c in removes:
         o = origins(cfg, c.func.value, cfg.stmt_of(c))
         if o and all(x.kind == "for" and x.stmt is walk_for and x.path == (1,) for x in o):
             pruned = True
-            conds = cfg.conditions(cfg.stmt_of(c))
+            conds = conditions_at(cfg, cfg.stmt_of(c))
             callsc = [call_name(x) for e, pol in conds if pol for x in ast.walk(e) if isinstance(x, ast.Call)]
-            chk.require(
-                callsc.count("_check_ignore_specs") >= 2, "R25e", c,
-                "sub-directory pruning is not guarded by both the outer and the inner ignore test", detail="prune guard",
-            )
+            # a remove reached under exactly one positive ignore test (``if A: remove  elif B: remove``):
+            # which list that test consults, provided nothing else narrows the arm
+            single = None
+            pos = [e for e, pol in conds if pol]
+            neg = [e for e, pol in conds if not pol]
+            if (
+                len(pos) == 1 and isinstance(pos[0], ast.Call) and call_name(pos[0]) == "_check_ignore_specs"
+                and all(isinstance(e, ast.Call) and call_name(e) == "_check_ignore_specs" for e in neg)
+            ):
+                lst_ = _ignore_call_args(pos[0], checker)[1]
+                single = norm(lst_) if lst_ is not None else None
+            prune_sites.append((c, callsc.count("_check_ignore_specs") >= 2, single))
+    both_in_one = [c for c, both, _ in prune_sites if both]
+    singles = {single for _, both, single in prune_sites if not both and single is not None}
+    fparams = _param_names(f)
+    split_ok = any(x in fparams for x in singles) and any(x not in fparams for x in singles)
+    for c, both, single in prune_sites:
+        chk.require(
+            both or (split_ok and single is not None), "R25e", c,
+            "sub-directory pruning is not guarded by both the outer and the inner ignore test", detail="prune guard",
+        )
     chk.require(pruned, "R25e", f, "ignored sub-directories are not pruned from the walk (subdirs list of os.walk)", detail="prune present")
+
+
+def _sep_terminated(arg) -> bool:
+    """``<path> + os.sep`` / ``<path> + "/"`` / ``os.path.join(<path>, "")``."""
+    return (
+        isinstance(arg, ast.BinOp) and isinstance(arg.op, ast.Add)
+        and (norm(arg.right) in ("os.sep", "os.path.sep") or (isinstance(arg.right, ast.Constant) and arg.right.value in ("/", "\\")))
+    ) or (isinstance(arg, ast.Call) and call_name(arg) == "os.path.join" and bool(arg.args) and isinstance(arg.args[-1], ast.Constant) and arg.args[-1].value == "")
+
+
+def _enclosing_def(node):
+    p = getattr(node, "_parent", None)
+    while p is not None and not isinstance(p, (ast.FunctionDef, ast.AsyncFunctionDef)):
+        p = getattr(p, "_parent", None)
+    return p
+
+
+def _param_names(fn):
+    return [a.arg for a in fn.args.posonlyargs + fn.args.args]
+
+
+def _ignore_call_args(call, checker):
+    """(tested path, spec list) of a ``_check_ignore_specs`` call, by position or keyword."""
+    names = _param_names(checker)
+    a0 = arg_of(call, 0, names[0]) if names else None
+    a1 = arg_of(call, 1, names[1]) if len(names) > 1 else None
+    return a0, a1
+
+
+def _is_abspath_value(cfg, e, at) -> bool:
+    """``os.path.abspath(...)`` written in place or held in a local (every reaching value)."""
+    if isinstance(e, ast.Call):
+        return call_name(e) == "os.path.abspath"
+    if isinstance(e, ast.Name):
+        o = origins(cfg, e, at)
+        return bool(o) and all(isinstance(x.expr, ast.Call) and call_name(x.expr) == "os.path.abspath" for x in o)
+    return False
+
+
+def _table_loader_call(cfg, call, at, tables) -> bool:
+    """``TABLE[k](...)`` or ``loader = TABLE[k]; loader(...)`` for a module-level loader table."""
+    f = call.func
+    if isinstance(f, ast.Subscript):
+        return norm(f.value) in tables
+    if isinstance(f, ast.Name):
+        os_ = origins(cfg, f, at)
+        return bool(os_) and all(o.kind == "expr" and not o.path and isinstance(o.expr, ast.Subscript) and norm(o.expr.value) in tables for o in os_)
+    return False
 
 
 def _enclosing_for(node, stop):
@@ -336,17 +450,19 @@ def _r25d(chk, repo) -> None:
     chk.count("R25d.yield_sites", len(yields))
     chk.floor("R25d.yield_sites", 1)
     params = [a.arg for a in f.args.args]
+    checker = repo.fn(DISC, "_check_ignore_specs")
     for y in yields:
         st = cfg.stmt_of(y)
-        conds = cfg.conditions(st)
+        conds = conditions_at(cfg, st)
         ext_ok = any(
             pol and isinstance(e, ast.Call) and call_name(e) == "_match_file_extension" for e, pol in conds
         )
         ign_false = [e for e, pol in conds if not pol and isinstance(e, ast.Call) and call_name(e) == "_check_ignore_specs"]
         lists = set()
         for e in ign_false:
-            if len(e.args) > 1:
-                lists.add(norm(e.args[1]))
+            lst_ = _ignore_call_args(e, checker)[1]
+            if lst_ is not None:
+                lists.add(norm(lst_))
         outer = any(l in params for l in lists)
         inner = any(l not in params for l in lists)
         chk.require(ext_ok, "R25d", y, "file yielded without a dominating extension test", detail="yield: extension test")
@@ -354,11 +470,8 @@ def _r25d(chk, repo) -> None:
         chk.require(inner, "R25d", y, "file yielded without a dominating (negative) inner ignore-spec test", detail="yield: inner ignore test")
         # the tested path must be the yielded file, absolutised
         for e in ign_false:
-            a0 = e.args[0]
-            o = origins(cfg, a0, st) if isinstance(a0, ast.Name) else []
-            good = bool(o) and all(
-                isinstance(x.expr, ast.Call) and call_name(x.expr) == "os.path.abspath" for x in o
-            )
+            a0 = _ignore_call_args(e, checker)[0]
+            good = a0 is not None and _is_abspath_value(cfg, a0, cfg.stmt_of(e) or st)
             chk.require(good, "R25d", e, "ignore test is not applied to the absolutised file path", detail=f"tested path of {short(e, 60)}")
     g = repo.fn(DISC, "_process_exact_path")
     cfg = cfg_of(g)
@@ -366,14 +479,21 @@ def _r25d(chk, repo) -> None:
     chk.count("R25d.exact_returns", len(rets))
     chk.floor("R25d.exact_returns", 1)
     for r in rets:
-        conds = cfg.conditions(r)
+        conds = conditions_at(cfg, r)
         ext_ok = any(pol and isinstance(e, ast.Call) and call_name(e) == "_match_file_extension" for e, pol in conds)
         ign_ok = False
         for e, pol in conds:
+            # ``x is None`` true / ``x is not None`` false say the same as ``x`` false: the checker
+            # returns the (non-empty) path of the ignore file or None
+            if isinstance(e, ast.Compare) and len(e.ops) == 1 and isinstance(e.comparators[0], ast.Constant) and e.comparators[0].value is None:
+                if isinstance(e.ops[0], ast.Is) and pol:
+                    e, pol = e.left, False
+                elif isinstance(e.ops[0], ast.IsNot) and not pol:
+                    e, pol = e.left, False
             if not pol and isinstance(e, ast.Name):
-                for o in origins(cfg, e, r):
-                    if isinstance(o.expr, ast.Call) and call_name(o.expr) == "_check_ignore_specs":
-                        ign_ok = True
+                os_ = origins(cfg, e, r)
+                if os_ and all(isinstance(o.expr, ast.Call) and call_name(o.expr) == "_check_ignore_specs" for o in os_):
+                    ign_ok = True
             if not pol and isinstance(e, ast.Call) and call_name(e) == "_check_ignore_specs":
                 ign_ok = True
         chk.require(ext_ok, "R25d", r, "exact path returned without the extension test", detail="exact: extension test")
@@ -408,6 +528,169 @@ VARIANTS = [
         "            relative_path = os.path.join(dirname, filename)\n            absolute_path = os.path.abspath(relative_path)\n",
         "            rel = os.path.join(dirname, filename)\n            relative_path = rel\n            absolute_path = os.path.abspath(rel)\n",
         "QUIET", None, "join result passed through a second local",
+    ),
+    # behaviour-preserving refactors: must stay quiet
+    Variant(
+        "quiet-relpath-through-local", DISC,
+        "        if spec.match_file(os.path.relpath(absolute_filepath, dirname)):\n",
+        "        rel_to_spec_dir = os.path.relpath(absolute_filepath, dirname)\n        if spec.match_file(rel_to_spec_dir):\n",
+        "QUIET", None, "relative path held in a local before matching",
+    ),
+    Variant(
+        "quiet-record-unpacked-in-body", DISC,
+        "    for dirname, filename, spec in ignore_specs:\n        if spec.match_file(",
+        "    for record in ignore_specs:\n        dirname, filename, spec = record\n        if spec.match_file(",
+        "QUIET", None, "record unpacked by a statement instead of the for target",
+    ),
+    Variant(
+        "quiet-record-indexed", DISC,
+        "    for dirname, filename, spec in ignore_specs:\n        if spec.match_file(os.path.relpath(absolute_filepath, dirname)):\n            return os.path.join(dirname, filename)\n",
+        "    for record in ignore_specs:\n        if record[2].match_file(os.path.relpath(absolute_filepath, record[0])):\n            return os.path.join(record[0], record[1])\n",
+        "QUIET", None, "record indexed instead of unpacked",
+    ),
+    Variant(
+        "quiet-yield-under-nested-positive-ifs", DISC,
+        "            if not _match_file_extension(filename, lower_file_exts):\n                continue\n            # Check not ignored by outer & inner ignore specs\n            if _check_ignore_specs(absolute_path, outer_ignore_specs):\n                continue\n            if _check_ignore_specs(absolute_path, inner_ignore_specs):\n                continue\n\n            # If we get here, it's one we want. Yield it.\n            yield os.path.normpath(relative_path)\n",
+        "            if _match_file_extension(filename, lower_file_exts):\n                if not _check_ignore_specs(absolute_path, outer_ignore_specs):\n                    if not _check_ignore_specs(absolute_path, inner_ignore_specs):\n                        yield os.path.normpath(relative_path)\n",
+        "QUIET", None, "early continues turned into nested positive ifs",
+    ),
+    Variant(
+        "quiet-ignore-tests-merged-with-or", DISC,
+        "            if _check_ignore_specs(absolute_path, outer_ignore_specs):\n                continue\n            if _check_ignore_specs(absolute_path, inner_ignore_specs):\n                continue\n",
+        "            if _check_ignore_specs(absolute_path, outer_ignore_specs) or _check_ignore_specs(absolute_path, inner_ignore_specs):\n                continue\n",
+        "QUIET", None, "two early continues merged into one `or`",
+    ),
+    Variant(
+        "quiet-yield-single-conjunction", DISC,
+        "            if not _match_file_extension(filename, lower_file_exts):\n                continue\n            # Check not ignored by outer & inner ignore specs\n            if _check_ignore_specs(absolute_path, outer_ignore_specs):\n                continue\n            if _check_ignore_specs(absolute_path, inner_ignore_specs):\n                continue\n\n            # If we get here, it's one we want. Yield it.\n            yield os.path.normpath(relative_path)\n",
+        "            wanted = (\n                _match_file_extension(filename, lower_file_exts)\n                and not _check_ignore_specs(absolute_path, outer_ignore_specs)\n                and not _check_ignore_specs(absolute_path, inner_ignore_specs)\n            )\n            if wanted:\n                yield os.path.normpath(relative_path)\n",
+        "QUIET", None, "the three tests as one conjunction held in a boolean local",
+    ),
+    Variant(
+        "quiet-ignore-tests-keyword-arguments", DISC,
+        "            if _check_ignore_specs(absolute_path, outer_ignore_specs):\n                continue\n            if _check_ignore_specs(absolute_path, inner_ignore_specs):\n                continue\n",
+        "            if _check_ignore_specs(absolute_filepath=absolute_path, ignore_specs=outer_ignore_specs):\n                continue\n            if _check_ignore_specs(absolute_path, ignore_specs=inner_ignore_specs):\n                continue\n",
+        "QUIET", None, "keyword arguments instead of positional",
+    ),
+    Variant(
+        "quiet-abspath-inlined-in-ignore-tests", DISC,
+        "            relative_path = os.path.join(dirname, filename)\n            absolute_path = os.path.abspath(relative_path)\n\n            # Check file extension is relevant\n            if not _match_file_extension(filename, lower_file_exts):\n                continue\n            # Check not ignored by outer & inner ignore specs\n            if _check_ignore_specs(absolute_path, outer_ignore_specs):\n                continue\n            if _check_ignore_specs(absolute_path, inner_ignore_specs):\n                continue\n",
+        "            relative_path = os.path.join(dirname, filename)\n\n            # Check file extension is relevant\n            if not _match_file_extension(filename, lower_file_exts):\n                continue\n            # Check not ignored by outer & inner ignore specs\n            if _check_ignore_specs(os.path.abspath(relative_path), outer_ignore_specs):\n                continue\n            if _check_ignore_specs(os.path.abspath(relative_path), inner_ignore_specs):\n                continue\n",
+        "QUIET", None, "abspath computed inline at each ignore test",
+    ),
+    Variant(
+        "quiet-abspath-after-extension-test", DISC,
+        "            absolute_path = os.path.abspath(relative_path)\n\n            # Check file extension is relevant\n            if not _match_file_extension(filename, lower_file_exts):\n                continue\n",
+        "\n            # Check file extension is relevant\n            if not _match_file_extension(filename, lower_file_exts):\n                continue\n            absolute_path = os.path.abspath(relative_path)\n",
+        "QUIET", None, "independent statements reordered",
+    ),
+    Variant(
+        "quiet-exact-path-inverted-branch", DISC,
+        "    if not ignore_file:\n        # If not ignored, just return the file.\n        return [os.path.normpath(path)]\n\n    ignore_rel_path = os.path.relpath(ignore_file, working_path)\n    linter_logger.warning(\n        f\"Exact file path {path} was given but it was \"\n        f\"ignored by an ignore pattern set in {ignore_rel_path}, \"\n        \"re-run with `--disregard-sqlfluffignores` to not process \"\n        \"ignore files.\"\n    )\n    # Return no match, because the file is ignored.\n    return []\n",
+        "    if ignore_file:\n        ignore_rel_path = os.path.relpath(ignore_file, working_path)\n        linter_logger.warning(\n            f\"Exact file path {path} was given but it was \"\n            f\"ignored by an ignore pattern set in {ignore_rel_path}, \"\n            \"re-run with `--disregard-sqlfluffignores` to not process \"\n            \"ignore files.\"\n        )\n        # Return no match, because the file is ignored.\n        return []\n    return [os.path.normpath(path)]\n",
+        "QUIET", None, "ignored branch first, hit returned at the end",
+    ),
+    Variant(
+        "quiet-exact-path-is-none-test", DISC,
+        "    if not ignore_file:\n        # If not ignored",
+        "    if ignore_file is None:\n        # If not ignored",
+        "QUIET", None, "_check_ignore_specs returns a non-empty joined path or None: `is None` is the same test",
+    ),
+    Variant(
+        "quiet-exact-path-result-through-local", DISC,
+        "        return [os.path.normpath(path)]\n",
+        "        found = [os.path.normpath(path)]\n        return found\n",
+        "QUIET", None, "returned list through a local",
+    ),
+    Variant(
+        "quiet-loader-through-local", DISC,
+        "                ignore_spec = ignore_file_loaders[ignore_file](dirname, ignore_file)\n                if ignore_spec:\n                    inner_ignore_specs.append(ignore_spec)\n",
+        "                loader = ignore_file_loaders[ignore_file]\n                ignore_spec = loader(dirname, ignore_file)\n                if ignore_spec:\n                    inner_ignore_specs.append(ignore_spec)\n",
+        "QUIET", None, "loader looked up into a local before the call",
+    ),
+    Variant(
+        "quiet-walk-default-topdown", DISC,
+        "os.walk(path, topdown=True)",
+        "os.walk(path)",
+        "QUIET", None, "topdown=True is the default of os.walk",
+    ),
+    Variant(
+        "quiet-prune-if-elif", DISC,
+        "            if _check_ignore_specs(\n                absolute_path, outer_ignore_specs\n            ) or _check_ignore_specs(absolute_path, inner_ignore_specs):\n                subdirs.remove(subdir)\n                continue\n",
+        "            if _check_ignore_specs(absolute_path, outer_ignore_specs):\n                subdirs.remove(subdir)\n            elif _check_ignore_specs(absolute_path, inner_ignore_specs):\n                subdirs.remove(subdir)\n",
+        "QUIET", None, "`or` split into if/elif with the same action",
+    ),
+    Variant(
+        "quiet-prune-test-in-boolean-local", DISC,
+        "            if _check_ignore_specs(\n                absolute_path, outer_ignore_specs\n            ) or _check_ignore_specs(absolute_path, inner_ignore_specs):\n                subdirs.remove(subdir)\n                continue\n",
+        "            pruned_by = _check_ignore_specs(\n                absolute_path, outer_ignore_specs\n            ) or _check_ignore_specs(absolute_path, inner_ignore_specs)\n            if pruned_by:\n                subdirs.remove(subdir)\n",
+        "QUIET", None, "prune test held in a local",
+    ),
+    Variant(
+        "quiet-containment-de-morgan", DISC,
+        "            if not (\n                dirname == inner_dirname\n                or os.path.abspath(dirname).startswith(\n                    os.path.abspath(inner_dirname) + os.sep\n                )\n            ):\n",
+        "            if dirname != inner_dirname and not os.path.abspath(dirname).startswith(\n                os.path.abspath(inner_dirname) + os.sep\n            ):\n",
+        "QUIET", None, "De Morgan on the containment test",
+    ),
+    Variant(
+        "quiet-containment-prefix-via-join-empty", DISC,
+        "                    os.path.abspath(inner_dirname) + os.sep\n",
+        "                    os.path.join(os.path.abspath(inner_dirname), \"\")\n",
+        "QUIET", None, "os.path.join(p, '') is p + os.sep for an absolute non-root directory",
+    ),
+    Variant(
+        "quiet-containment-prefix-in-local", DISC,
+        "            if not (\n                dirname == inner_dirname\n                or os.path.abspath(dirname).startswith(\n                    os.path.abspath(inner_dirname) + os.sep\n                )\n            ):\n",
+        "            inner_prefix = os.path.abspath(inner_dirname) + os.sep\n            if not (\n                dirname == inner_dirname\n                or os.path.abspath(dirname).startswith(inner_prefix)\n            ):\n",
+        "QUIET", None, "separator-terminated prefix held in a local",
+    ),
+    Variant(
+        "quiet-stale-specs-filtered-by-comprehension", DISC,
+        "        for inner_dirname, inner_file, inner_spec in inner_ignore_specs[:]:\n            if not (\n                dirname == inner_dirname\n                or os.path.abspath(dirname).startswith(\n                    os.path.abspath(inner_dirname) + os.sep\n                )\n            ):\n                inner_ignore_specs.remove((inner_dirname, inner_file, inner_spec))\n",
+        "        inner_ignore_specs = [\n            (inner_dirname, inner_file, inner_spec)\n            for inner_dirname, inner_file, inner_spec in inner_ignore_specs\n            if dirname == inner_dirname\n            or os.path.abspath(dirname).startswith(os.path.abspath(inner_dirname) + os.sep)\n        ]\n",
+        "QUIET", None, "stale inner specs dropped by a comprehension",
+    ),
+    Variant(
+        "comprehension-abs-prefix-vs-walk-dirname", DISC,
+        "        for inner_dirname, inner_file, inner_spec in inner_ignore_specs[:]:\n            if not (\n                dirname == inner_dirname\n                or os.path.abspath(dirname).startswith(\n                    os.path.abspath(inner_dirname) + os.sep\n                )\n            ):\n                inner_ignore_specs.remove((inner_dirname, inner_file, inner_spec))\n",
+        "        inner_ignore_specs = [\n            (inner_dirname, inner_file, inner_spec)\n            for inner_dirname, inner_file, inner_spec in inner_ignore_specs\n            if dirname == inner_dirname\n            or dirname.startswith(os.path.abspath(inner_dirname) + os.sep)\n        ]\n",
+        "R25a", "_iter_files_in_path", "breaking twin of the comprehension spelling",
+    ),
+    Variant(
+        "containment-prefix-in-local-without-separator", DISC,
+        "            if not (\n                dirname == inner_dirname\n                or os.path.abspath(dirname).startswith(\n                    os.path.abspath(inner_dirname) + os.sep\n                )\n            ):\n",
+        "            inner_prefix = os.path.abspath(inner_dirname)\n            if not (\n                dirname == inner_dirname\n                or os.path.abspath(dirname).startswith(inner_prefix)\n            ):\n",
+        "R25f", "_iter_files_in_path", "breaking twin of the prefix-in-local spelling",
+    ),
+    Variant(
+        "record-indexed-wrong-component", DISC,
+        "    for dirname, filename, spec in ignore_specs:\n        if spec.match_file(os.path.relpath(absolute_filepath, dirname)):\n            return os.path.join(dirname, filename)\n",
+        "    for record in ignore_specs:\n        if record[2].match_file(os.path.relpath(absolute_filepath, record[1])):\n            return os.path.join(record[0], record[1])\n",
+        "R25c", "_check_ignore_specs", "breaking twin of the indexed-record spelling: relative to the file name, not the directory",
+    ),
+    Variant(
+        "prune-if-without-elif", DISC,
+        "            if _check_ignore_specs(\n                absolute_path, outer_ignore_specs\n            ) or _check_ignore_specs(absolute_path, inner_ignore_specs):\n                subdirs.remove(subdir)\n                continue\n",
+        "            if _check_ignore_specs(absolute_path, outer_ignore_specs):\n                subdirs.remove(subdir)\n            elif _check_ignore_specs(absolute_path, inner_ignore_specs):\n                pass\n",
+        "R25e", "_iter_files_in_path", "breaking twin of the if/elif spelling: the inner arm no longer prunes",
+    ),
+    Variant(
+        "loader-through-local-gets-root-path", DISC,
+        "                ignore_spec = ignore_file_loaders[ignore_file](dirname, ignore_file)\n                if ignore_spec:\n                    inner_ignore_specs.append(ignore_spec)\n",
+        "                loader = ignore_file_loaders[ignore_file]\n                ignore_spec = loader(path, ignore_file)\n                if ignore_spec:\n                    inner_ignore_specs.append(ignore_spec)\n",
+        "R25e", "_iter_files_in_path", "breaking twin of the loader-in-a-local spelling",
+    ),
+    Variant(
+        "exact-path-is-not-none-test", DISC,
+        "    if not ignore_file:\n        # If not ignored",
+        "    if ignore_file is not None:\n        # If not ignored",
+        "R25d", "_process_exact_path", "breaking twin of the `is None` spelling: returns the file when it IS ignored",
+    ),
+    Variant(
+        "yield-conjunction-without-inner-test", DISC,
+        "            if not _match_file_extension(filename, lower_file_exts):\n                continue\n            # Check not ignored by outer & inner ignore specs\n            if _check_ignore_specs(absolute_path, outer_ignore_specs):\n                continue\n            if _check_ignore_specs(absolute_path, inner_ignore_specs):\n                continue\n\n            # If we get here, it's one we want. Yield it.\n            yield os.path.normpath(relative_path)\n",
+        "            wanted = (\n                _match_file_extension(filename, lower_file_exts)\n                and not _check_ignore_specs(absolute_path, outer_ignore_specs)\n            )\n            if wanted:\n                yield os.path.normpath(relative_path)\n",
+        "R25d", "_iter_files_in_path", "breaking twin of the conjunction-in-a-local spelling",
     ),
     Variant(
         "containment-by-commonprefix", DISC,
